@@ -322,6 +322,47 @@ def check_results(ctx):
                    'assigned on every path: %s' % sorted(assigned))
 
 
+def check_optional_model(ctx):
+    """With a pre-built interface the entry point has no Model: the data frame conversion gets Model=None.  Every use of the
+    optional argument inside the conversion must therefore be under a test that it is there."""
+    prog = ctx.prog
+    n_methods = 0
+    for cls in RESULT_CLASSES:
+        dc, fn = prog.resolve_method(cls, 'py_get_dataframe')
+        if fn is None:
+            raise AnalysisError('anchor vanished: %s.py_get_dataframe' % cls)
+        if dc != cls and dc in RESULT_CLASSES:
+            continue        # inherited: decided at the defining class
+        n_methods += 1
+        ctx.functions.add('simulator:%s.py_get_dataframe' % dc)
+        args, dfl = fn.args.args, fn.args.defaults
+        opt = [a.arg for a, dv in zip(args[len(args) - len(dfl):], dfl) if isinstance(dv, ast.Constant) and dv.value is None]
+        bad = []
+        for pn in opt:
+            present = {'%s!=None' % pn, 'None!=%s' % pn, '%sis notNone' % pn, '%sisnotNone' % pn, pn}
+            rebound = any(isinstance(n, ast.Assign) and any(isinstance(t, ast.Name) and t.id == pn for t in n.targets) for n in ast.walk(fn))
+            for n in ast.walk(fn):
+                if isinstance(n, (ast.Attribute, ast.Subscript)) and isinstance(n.value, ast.Name) and n.value.id == pn and isinstance(n.ctx, ast.Load):
+                    st = n
+                    while not isinstance(st, ast.stmt):
+                        st = st._parent
+                    g = {x.replace(' ', '') for x in util.guards_of(st, fn)}
+                    here = st.test if isinstance(st, (ast.If, ast.While)) and any(x is n for x in ast.walk(st.test)) else None
+                    if here is not None and isinstance(here, ast.BoolOp) and isinstance(here.op, ast.And):
+                        # `P is not None and P.x ...`: the earlier conjuncts guard the later ones
+                        for v in here.values:
+                            if any(x is n for x in ast.walk(v)):
+                                break
+                            g.add(util.canon_test(v).replace(' ', ''))
+                    if not (g & present) and not rebound:
+                        bad.append('%s is used (`%s`, line %d) without a test that a %s was given' % (pn, src(n)[:40], n.lineno, pn))
+        ctx.ob('R7.3-optional-model', '%s.py_get_dataframe' % dc, not bad, ctx.loc('simulator', fn),
+               'an optional argument of the data frame conversion (None when a pre-built interface was simulated) is only used under a test that it is there',
+               '; '.join(bad[:3]))
+    if n_methods < 2:
+        raise AnalysisError('anchor vanished: py_get_dataframe methods of the result classes')
+
+
 def check_shapes(ctx):
     prog = ctx.prog
     ctor_params = {}
@@ -433,6 +474,7 @@ def check(ctx):
     f = check_lattice(ctx)
     check_dispatch(ctx, f)
     check_results(ctx)
+    check_optional_model(ctx)
     check_shapes(ctx)
     # first-row clause: the row at the initial time is the initial condition with the rules applied - it needs the rules to run first in
     # an iteration (C09 R9.3) and the rows to be recorded before the state is updated (C05 R5.2); both are re-emitted here.
@@ -488,4 +530,5 @@ def check(ctx):
     ctx.floor('R7.1-option-lattice', 256)
     ctx.floor('R7.2-concrete-simulator', 5)
     ctx.floor('R7.3-constructor', 8)
+    ctx.floor('R7.3-optional-model', 2)
     ctx.floor('R7.4-shape', 5)
